@@ -131,6 +131,7 @@ def directDeps (w : World) (fi : Nat) : List Nat :=
 def reachFrom (w : World) : Nat → List Nat → List Nat
   | 0, acc => acc
   | fuel+1, acc =>
+    let acc := acc.eraseDups
     let next := (acc ++ (acc.map (directDeps w)).flatten).eraseDups
     if next.length = acc.length then acc else reachFrom w fuel next
 
